@@ -15,6 +15,7 @@ bool prop(Tape &t, Report &R) {
   int flow = t.weighted({3, 3, 3, 2, 1});
   static const char *fn[] = {"flow:global", "flow:legalize", "flow:detailed", "flow:global-legalize-detailed", "flow:legalize-twice"};
   bool usesGlobal = flow == 0 || flow == 3;
+  HistoryScope hist(t, R);
   GenOpts o;
   o.maxCells = R.thorough() ? 40 : 16;
   if (usesGlobal) {
